@@ -1,4 +1,5 @@
 //! C01 — reading arbitrary bytes never panics, aborts or hangs.
+use crate::engine::val::Val;
 use crate::engine::bytes::{to_hex, Bytes};
 use crate::engine::corpus;
 use crate::engine::docgen;
@@ -240,8 +241,86 @@ pub fn run(ctx: &Ctx) {
             Ok(())
         },
     );
+    // (iv) hostile but well-formed structures (the cases C14 enumerates: /Prev loops, ladders of shared tree nodes,
+    //      lying object streams, deep nesting): they are inputs like any other
+    let structural = crate::props::c14::structural_cases();
+    ctx.run_enum(
+        "hostile-structures",
+        structural.len() as u64,
+        |i| i as usize,
+        |i, info| {
+            let (name, data) = &structural[*i];
+            info.label("structural");
+            info.distinct(data);
+            let v = check_input(data, b"", name, &json!({}))?;
+            info.nontrivial(v.loaded_any);
+            Ok(())
+        },
+    );
+    // (v) streams with a predictor whose decoded data is not a whole number of rows (short or long by up to a row):
+    //     every predictor x colours x bits x columns x rows x remainder, a seed-rotated part in the quick tier
+    let mut geo: Vec<(u32, u32, u32, u32, u32, i32, bool)> = Vec::new();
+    for pred in [2u32, 10, 11, 12, 13, 14, 15] {
+        for colors in 1..=3u32 {
+            for bpc in [1u32, 2, 4, 8, 16] {
+                for cols in [1u32, 2, 3, 5, 8] {
+                    for rows in 1..=3u32 {
+                        let stride = ((cols * colors * bpc + 7) / 8) as i32;
+                        for delta in -(stride + 1)..=2 {
+                            for lzw in [false, true] {
+                                geo.push((pred, colors, bpc, cols, rows, delta, lzw));
+                            }
+                        }
+                    }
+                }
+            }
+        }
+    }
+    let part = ctx.tier.pick(6, 1);
+    let rot = ctx.seed % part;
+    let geo: Vec<_> = geo.into_iter().enumerate().filter(|(i, _)| *i as u64 % part == rot).map(|(_, g)| g).collect();
+    ctx.run_enum(
+        "predicted-streams",
+        geo.len() as u64,
+        |i| geo[i as usize],
+        |g, info| {
+            let (pred, colors, bpc, cols, rows, delta, lzw) = *g;
+            let stride = ((cols * colors * bpc + 7) / 8) as i32;
+            let row = if pred >= 10 { stride + 1 } else { stride };
+            let len = (row * rows as i32 + delta).max(0) as usize;
+            // row data: PNG filter-type bytes 0-4 at row starts, otherwise a fixed pattern
+            let data: Vec<u8> = (0..len).map(|k| if pred >= 10 && (k as i32) % row == 0 { ((k as i32 / row) % 5) as u8 } else { (k * 37 + 11) as u8 }).collect();
+            let mut t = crate::engine::tape::Tape::new(&[]);
+            let enc = if lzw { crate::engine::filters::lzw_encode(&data, 1, &mut t) } else { crate::engine::filters::flate_encode(&data, false, 6) };
+            let parms = Val::dict(vec![("Predictor", Val::Int(pred as i64)), ("Colors", Val::Int(colors as i64)), ("BitsPerComponent", Val::Int(bpc as i64)), ("Columns", Val::Int(cols as i64))]);
+            let mut w = crate::engine::writer::Writer::new(b"", "1.5");
+            for (n, v) in crate::engine::writer::minimal_catalog(1, 2, 3, 1) {
+                w.obj(n, 0, &v);
+            }
+            let dict = vec![
+                (Bytes::from("Type"), Val::name("XObject")),
+                (Bytes::from("Subtype"), Val::name("Image")),
+                (Bytes::from("Width"), Val::Int(cols as i64)),
+                (Bytes::from("Height"), Val::Int(rows as i64)),
+                (Bytes::from("ColorSpace"), Val::name(["DeviceGray", "DeviceGray", "DeviceRGB"][colors as usize - 1])),
+                (Bytes::from("BitsPerComponent"), Val::Int(bpc as i64)),
+                (Bytes::from("Filter"), Val::name(if lzw { "LZWDecode" } else { "FlateDecode" })),
+                (Bytes::from("DecodeParms"), parms),
+            ];
+            w.stream_obj(4, 0, &dict, &enc);
+            w.free(0, 0, 65535);
+            w.xref_table(5, &[(Bytes::from("Root"), Val::Ref(1, 0))], false);
+            let file = w.finish();
+            info.label(format!("predictor/{}", pred));
+            info.label(if delta == 0 { "rows/whole" } else if delta < 0 { "rows/short" } else { "rows/long" });
+            info.distinct(&file);
+            let v = check_input(&file, b"", "predicted-stream", &json!({"geometry": format!("{:?}", g)}))?;
+            info.nontrivial(v.loaded_any);
+            Ok(())
+        },
+    );
     let r = ratios.lock().unwrap();
     ctx.set_extra("resource_bound", json!({"total_bytes": format!("T <= {} + {}*(n+d)", B0, B1), "peak_bytes": format!("P <= {} + {}*(n+d)", A0, A1), "max_observed_total_per_byte": r.0, "max_observed_peak_per_byte": r.1, "timeout_s": TIMEOUT_S, "hang_rule": "a time-out is confirmed with 4x the budget before it counts"}));
 }
 
-pub const RULE: &str = "cases = byte strings: every corpus file (incl. files/invalid), corpus files with 1-8 stacked structure-aware mutations (bit flips, byte runs, deletions, duplications, truncation, boundary numbers, swapped keys, spliced files, perturbed startxref and /Length, retargeted references, inserted tokens, deep nesting), generated typed documents (docgen) with 0-3 mutations, raw byte strings; each x {strict, tolerant} x {cached, uncached}, executed in worker processes; oracle = the deep walk (engine/walker.rs) returns from every call with a value or an error: no panic, no abnormal worker exit, no confirmed time-out, allocation within T <= B0+B1*(n+d) and P <= A0+A1*(n+d); non-trivial = the input loaded in at least one configuration (typed loading was reached); distinct by input bytes";
+pub const RULE: &str = "cases = byte strings: every corpus file (incl. files/invalid), corpus files with 1-8 stacked structure-aware mutations (bit flips, byte runs, deletions, duplications, truncation, boundary numbers, swapped keys, spliced files, perturbed startxref and /Length, retargeted references, inserted tokens, deep nesting), generated typed documents (docgen) with 0-3 mutations, raw byte strings, the hostile structures of C14 (/Prev loops, ladders of shared tree nodes, lying object streams, deep nesting), image streams with every predictor geometry whose decoded data is short or long by up to a row; each x {strict, tolerant} x {cached, uncached}, executed in worker processes; oracle = the deep walk (engine/walker.rs) returns from every call with a value or an error: no panic, no abnormal worker exit, no confirmed time-out, allocation within T <= B0+B1*(n+d) and P <= A0+A1*(n+d); non-trivial = the input loaded in at least one configuration (typed loading was reached); distinct by input bytes";
